@@ -3,6 +3,7 @@ import TlsModel.Codec
 import TlsModel.Fmt
 import TlsModel.FmtAid
 import TlsModel.Msgs
+import TlsModel.Ssl2
 /-
   Driver for C15.  Formats are named as in `Tls.Msgs.table` (plus `ext:<ctx>`,
   `extdata:<cls>`, `serverHelloAuto`); values use the text syntax of TlsModel/FmtAid.lean.
@@ -105,6 +106,30 @@ def fmtOf (name : String) (input : Option Bytes) (v : Option Val) : Option Msgs.
     | none, none => some { fmt := Msgs.serverHello }
   else Msgs.lookup name
 
+/-- the SSLv2-framed structures have hand-written codecs (TlsModel/Ssl2.lean) -/
+def ssl2Codec? : String → Option ((Val → Option Bytes) × (Bytes → Except Err (Val × Bytes)))
+  | "recordHeader2" => some (Ssl2.rh2EncodeVal, Ssl2.rh2DecodeVal)
+  | "ssl2ClientHello" => some (Ssl2.chEncode, Ssl2.chDecode)
+  | "ssl2ServerHello" => some (Ssl2.shEncode, Ssl2.shDecode)
+  | "ssl2ClientMasterKey" => some (Ssl2.cmkEncode, Ssl2.cmkDecode)
+  | _ => none
+
+def handleSsl2 : List String → Option String
+  | ["enc", name, val] => do
+    let (e, _) ← ssl2Codec? name
+    let v ← Val.ofString? val
+    match e v with
+    | some b => some ("ok " ++ hexOut b)
+    | none => some "overflow"
+  | ["dec", name, hex] => do
+    let (_, d) ← ssl2Codec? name
+    let b ← ofHexT hex
+    match d b with
+    | .ok (v, r) => some ("ok " ++ v.render ++ " " ++ toString r.length)
+    | .error _ => some "decode_error"
+  | ["show", name] => (ssl2Codec? name).map fun _ => "- false"
+  | _ => none
+
 def handle : List String → Option String
   | ["enc", name, val] => do
     let v ← Val.ofString? val
@@ -163,4 +188,4 @@ def handle : List String → Option String
     pRun (Parser.new b) ops []
   | _ => none
 
-def main : IO Unit := protoMain handle
+def main : IO Unit := protoMain (fun l => (handleSsl2 l).orElse (fun _ => handle l))
